@@ -27,8 +27,11 @@ CONSTANTS
   Alive(_, _, _)          \* FALSE once a stage automaton has no successor (it panicked standalone)
 
 N == Len(Rec)
-VARIABLES fs, ss, es, kout, l, sid
-tvars == <<fs, ss, es, kout, l, sid>>
+VARIABLES fs, ss, es, kout, l, sid,
+          sync        \* FALSE from the first non-conforming line of a run until the next reset: once the real
+                      \* object has left the specification's path, later differences are consequences of the
+                      \* first one and must not be attributed to other properties
+tvars == <<fs, ss, es, kout, l, sid, sync>>
 
 K == INSTANCE Keyboard
 
@@ -76,9 +79,39 @@ ByteFed(x) == CASE x[1] = "byte" -> x[2]
                 [] x[1] = "word" -> (IF FWordOut(x[2])[1] = "byte" THEN FWordOut(x[2])[2] ELSE -1)
                 [] OTHER -> -1
 
-CheckLine ==
+(* does line l conform (result, query, unfed stages)? *)
+LineOK ==
   LET r == Rec[l]  x == r["in"] IN
   IF x[1] = "reset" THEN TRUE ELSE
+  LET exp == CASE x[1] = "bit" -> K!BitResult(fs, ss, x[2])
+               [] x[1] = "word" -> K!WordResult(ss, x[2])
+               [] x[1] = "byte" -> SOut(ss, x[2])
+               [] x[1] = "key" -> EKeyOut(es, x[2], x[3])
+               [] OTHER -> <<"none">>
+  IN /\ r.ret = exp /\ r.q = ExpQuery(x)
+     /\ (Mode # "wiring" \/ Len(sid) # 3 \/ Len(r.stage) # 3
+         \/ \A s \in {1, 2, 3} \ Fed(x) : r.stage[s] = sid[s])
+
+(* a non-conforming line after which the real object can no longer be assumed to be where the wiring
+   is: the two disagree on whether a sequence / frame was completed, or an unfed stage moved.  (A wrong
+   key or error for a COMPLETED sequence leaves both sides at a sequence boundary, and a wrong decoded
+   key leaves the event stage's modifiers - compared separately - alone: checking continues.) *)
+Desyncs ==
+  LET r == Rec[l]  x == r["in"] IN
+  IF x[1] = "reset" \/ LineOK THEN FALSE
+  ELSE LET exp == CASE x[1] = "bit" -> K!BitResult(fs, ss, x[2])
+                    [] x[1] = "word" -> K!WordResult(ss, x[2])
+                    [] x[1] = "byte" -> SOut(ss, x[2])
+                    [] OTHER -> <<"none">>
+       IN  \/ (x[1] \in {"bit", "word", "byte"} /\ ((r.ret[1] = "none") # (exp[1] = "none")))
+           \/ (x[1] = "bit" /\ r.ret # exp)
+           \/ r.ret[1] = "panic"
+           \/ (Mode = "wiring" /\ Len(sid) = 3 /\ Len(r.stage) = 3
+                 /\ \E s \in {1, 2, 3} \ Fed(x) : r.stage[s] # sid[s])
+
+CheckLine ==
+  LET r == Rec[l]  x == r["in"] IN
+  IF x[1] = "reset" \/ ~sync THEN TRUE ELSE
   LET exp == CASE x[1] = "bit" -> K!BitResult(fs, ss, x[2])
                [] x[1] = "word" -> K!WordResult(ss, x[2])
                [] x[1] = "byte" -> SOut(ss, x[2])
@@ -96,15 +129,16 @@ CheckLine ==
             ELSE Flag([prop |-> "C18", kind |-> "trace-stage", comp |-> Comp, line |-> l, input |-> x, stage |-> s,
                        note |-> "a stage this call does not feed changed its state"])
 
-TInit == /\ K!KbInit /\ l = 1 /\ sid = <<>> /\ TLCSet(1, 0) /\ TLCSet(2, {})
+TInit == /\ K!KbInit /\ l = 1 /\ sid = <<>> /\ sync = TRUE /\ TLCSet(1, 0) /\ TLCSet(2, {})
 TNext == /\ l <= N /\ Alive(fs, ss, es)
          /\ CheckLine
          /\ LET x == Rec[l]["in"] IN IF x[1] = "reset" THEN Reset ELSE Step(x)
          /\ l' = l + 1
          /\ sid' = Rec[l].stage
+         /\ sync' = IF Rec[l]["in"][1] = "reset" THEN TRUE ELSE (sync /\ ~Desyncs)
 TSpec == TInit /\ [][TNext]_tvars
 
-ObsOK == (l > 1 /\ Alive(fs, ss, es) /\ Rec[l - 1].ret[1] # "panic") =>
+ObsOK == (l > 1 /\ sync /\ Alive(fs, ss, es) /\ Rec[l - 1].ret[1] # "panic") =>
   ( (Rec[l - 1].obs[1] = EMods(es) /\ Rec[l - 1].obs[2] = EMode(es))
     \/ Flag([prop |-> IF Mode = "wiring" THEN "C18" ELSE "C04", kind |-> "trace-obs", comp |-> Comp, line |-> l - 1,
              input |-> Rec[l - 1]["in"], observed |-> Rec[l - 1].obs, expected |-> <<EMods(es), EMode(es)>>]) )
